@@ -2962,3 +2962,295 @@ Proof.
   intros R1 Hp Hv S Hn R2 Hl Ha Hc Hal Hcase.
   eapply after_success_exact; try eassumption. intros k' Hk' He. rewrite (Hcase k' Hk' He). reflexivity.
 Qed.
+
+(* ====================================================================================== *)
+(* 6. USE statement texts (model section 8)                                               *)
+(* ====================================================================================== *)
+Open Scope N_scope.
+(* ---- proofs ---------------------------------------------------------------------------------- *)
+Lemma is_alpha_In c : is_alpha c = true <-> In c alphabet.
+Proof. apply in_alphabet_existsb. Qed.
+
+Lemma name_mem_In i l : name_mem i l = true <-> In i l.
+Proof.
+  unfold name_mem. rewrite existsb_exists. split.
+  - intros [x [Hx He]]. apply name_eqb_eq in He. subst. exact Hx.
+  - intros H. exists i. split; [exact H|apply name_eqb_eq; reflexivity].
+Qed.
+
+(* the three equations that determine [idents]: empty text, one run, texts joined by a separator *)
+Lemma runs_sep cur a x b :
+  is_alpha x = false -> runs cur (a ++ x :: b) = runs cur a ++ runs [] b.
+Proof.
+  intros Hx. revert cur. induction a as [|c r IH]; intros cur; cbn [app runs].
+  - rewrite Hx. destruct cur; reflexivity.
+  - destruct (is_alpha c); [apply IH|]. destruct cur; [apply IH|]. cbn [app]. f_equal. apply IH.
+Qed.
+
+Lemma runs_all cur i :
+  forallb is_alpha i = true -> (cur <> [] \/ i <> []) -> runs cur i = [rev cur ++ i].
+Proof.
+  revert cur. induction i as [|c r IH]; intros cur Hall Hne; cbn [runs].
+  - rewrite app_nil_r. destruct cur; [destruct Hne as [H|H]; contradiction|reflexivity].
+  - cbn [forallb] in Hall. apply andb_true_iff in Hall. destruct Hall as [Hc Hr]. rewrite Hc.
+    rewrite IH; [|exact Hr|left; discriminate]. cbn [rev]. rewrite <- app_assoc. reflexivity.
+Qed.
+
+Lemma idents_nil : idents [] = [].
+Proof. reflexivity. Qed.
+Lemma idents_run i : i <> [] -> forallb is_alpha i = true -> idents i = [i].
+Proof. intros Hne Hall. unfold idents. rewrite runs_all; [reflexivity|exact Hall|right; exact Hne]. Qed.
+Lemma idents_sep a x b : is_alpha x = false -> idents (a ++ x :: b) = idents a ++ idents b.
+Proof. apply runs_sep. Qed.
+
+Lemma valid_all_alpha s : valid_name s -> s <> [] /\ forallb is_alpha s = true.
+Proof.
+  intros [Hl Hall]. split; [destruct s; [cbn in Hl; lia|discriminate]|].
+  apply forallb_forall. intros c Hc. apply is_alpha_In. rewrite Forall_forall in Hall. apply Hall, Hc.
+Qed.
+
+(* the identifiers of the model's text: the keyword and the name, nothing else; all characters benign *)
+Lemma statement_idents k : valid_name (fst k) ->
+  idents (use_statement k) = [kw_use; fst k] /\ forallb benign (use_statement k) = true.
+Proof.
+  intros Hv. destruct (valid_all_alpha _ Hv) as [Hne Hall]. destruct k as [s cs]. cbn [fst] in *.
+  assert (Hkw : idents kw_use = [kw_use]) by (vm_compute; reflexivity).
+  assert (Hb : forallb benign s = true).
+  { apply forallb_forall. intros c Hc. unfold benign. rewrite forallb_forall in Hall. rewrite (Hall c Hc). reflexivity. }
+  unfold use_statement. cbn [snd fst]. destruct cs.
+  - split.
+    + change (use_prefix ++ [dquote] ++ s ++ [dquote]) with (kw_use ++ 32 :: ([] ++ 34 :: (s ++ 34 :: []))).
+      rewrite idents_sep by (vm_compute; reflexivity). rewrite idents_sep by (vm_compute; reflexivity).
+      rewrite idents_sep by (vm_compute; reflexivity). rewrite Hkw, idents_nil, (idents_run s Hne Hall). reflexivity.
+    + rewrite !forallb_app, Hb. vm_compute. reflexivity.
+  - split.
+    + change (use_prefix ++ s) with (kw_use ++ 32 :: s).
+      rewrite idents_sep by (vm_compute; reflexivity). rewrite Hkw, (idents_run s Hne Hall). reflexivity.
+    + rewrite forallb_app, Hb. vm_compute. reflexivity.
+Qed.
+
+(* hence the model's text of a valid requested name is never a violation, whatever else was requested *)
+Lemma statement_harmless k req : valid_name (fst k) -> In (fst k) req -> harmless req (use_statement k) = true.
+Proof.
+  intros Hv Hin. destruct (statement_idents k Hv) as [Hi Hb]. unfold harmless. rewrite Hb, Hi.
+  cbn [forallb andb]. rewrite (proj2 (name_mem_In _ _) Hin). vm_compute. reflexivity.
+Qed.
+
+Lemma text_verdict_model callk k : In k callk -> text_verdict callk (use_statement k) = TOk.
+Proof.
+  intros Hin. unfold text_verdict.
+  rewrite (proj2 (name_mem_In _ _)); [reflexivity|]. apply in_map, Hin.
+Qed.
+
+(* what [harmless] says, declaratively *)
+Lemma harmless_iff req t :
+  harmless req t = true <->
+  (forall c, In c t -> In c alphabet \/ c = 32 \/ c = 34 \/ c = 59) /\
+  exists kw rest, idents t = kw :: rest /\ eq_ci kw kw_use = true /\ rest <> [] /\ forall i, In i rest -> In i req.
+Proof.
+  unfold harmless. rewrite andb_true_iff, forallb_forall. split.
+  - intros [Hb Hi]. split.
+    + intros c Hc. specialize (Hb c Hc). unfold benign in Hb. rewrite !orb_true_iff, !N.eqb_eq, is_alpha_In in Hb. tauto.
+    + destruct (idents t) as [|kw rest]; [discriminate|]. apply andb_true_iff in Hi. destruct Hi as [Hi Hr].
+      apply andb_true_iff in Hi. destruct Hi as [Hk Hne]. exists kw, rest. repeat split; try assumption.
+      * destruct rest; [discriminate|discriminate].
+      * intros i Hin. rewrite forallb_forall in Hr. apply name_mem_In, Hr, Hin.
+  - intros [Hb [kw [rest [Hi [Hk [Hne Hr]]]]]]. split.
+    + intros c Hc. unfold benign. rewrite !orb_true_iff, !N.eqb_eq, is_alpha_In. specialize (Hb c Hc). tauto.
+    + rewrite Hi, Hk. destruct rest; [contradiction|]. cbn [andb]. apply forallb_forall. intros i Hin. apply name_mem_In, Hr, Hin.
+Qed.
+
+(* the `viol statement-text` verdict, declaratively: the text is not the model's text of any requested
+   valid name, and it carries a character that is not benign or its identifiers are not "USE + requested names" *)
+Lemma text_viol_iff callk t :
+  text_verdict callk t = TViol <->
+  (forall k, In k callk -> t <> use_statement k) /\
+  ((exists c, In c t /\ ~ (In c alphabet \/ c = 32 \/ c = 34 \/ c = 59)) \/
+   ~ (exists kw rest, idents t = kw :: rest /\ eq_ci kw kw_use = true /\ rest <> [] /\
+                      forall i, In i rest -> exists k, In k callk /\ fst k = i)).
+Proof.
+  unfold text_verdict. destruct (name_mem t (map use_statement callk)) eqn:E.
+  - split; [discriminate|]. intros [Hn _]. apply name_mem_In in E. apply in_map_iff in E. destruct E as [k [Hk Hin]].
+    exfalso. apply (Hn k Hin). symmetry. exact Hk.
+  - assert (Hn : forall k, In k callk -> t <> use_statement k).
+    { intros k Hin Ht. assert (name_mem t (map use_statement callk) = true); [|congruence].
+      apply name_mem_In. rewrite Ht. apply in_map, Hin. }
+    destruct (harmless (map fst callk) t) eqn:H.
+    + split; [discriminate|]. intros [_ Hbad]. apply harmless_iff in H. destruct H as [Hb [kw [rest [Hi [Hk [Hne Hr]]]]]].
+      destruct Hbad as [[c [Hc Hnb]]|Hns]; [destruct (Hnb (Hb c Hc))|]. exfalso. apply Hns.
+      exists kw, rest. repeat split; try assumption. intros i Hin. specialize (Hr i Hin). apply in_map_iff in Hr.
+      destruct Hr as [k [Hf Hk']]. exists k. split; assumption.
+    + split; [intros _|reflexivity]. split; [exact Hn|].
+      destruct (forallb benign t) eqn:B.
+      * right. intros [kw [rest [Hi [Hk [Hne Hr]]]]].
+        assert (harmless (map fst callk) t = true); [|congruence]. apply harmless_iff. split.
+        -- intros c Hc. rewrite forallb_forall in B. specialize (B c Hc). unfold benign in B.
+           rewrite !orb_true_iff, !N.eqb_eq, is_alpha_In in B. tauto.
+        -- exists kw, rest. repeat split; try assumption. intros i Hin. destruct (Hr i Hin) as [k [Hk' Hf]].
+           apply in_map_iff. exists k. split; assumption.
+      * left. assert (Hex : existsb (fun c => negb (benign c)) t = true).
+        { clear -B. induction t as [|c r IH]; [discriminate|]. cbn [forallb existsb] in *.
+          destruct (benign c); cbn [negb andb orb] in *; [apply IH, B|reflexivity]. }
+        apply existsb_exists in Hex. destruct Hex as [c [Hc Hb]]. exists c. split; [exact Hc|].
+        intros Hok. apply negb_true_iff in Hb. unfold benign in Hb.
+        assert (is_alpha c || (c =? 32) || (c =? 34) || (c =? 59) = true); [|congruence].
+        rewrite !orb_true_iff, !N.eqb_eq, is_alpha_In. tauto.
+Qed.
+
+Open Scope nat_scope.
+(* ---- a pending use never waits on nothing --------------------------------------------------- *)
+
+
+Definition SInv (s : pool) : Prop :=
+  forall r c, In r (pending s) -> In c (cov r) -> stat r c = Sent ->
+  alive s c = true /\ In (uid r, uks r) (wire s c).
+
+Lemma find_use_unique l r : NoDup (map uid l) -> In r l -> find_use l (uid r) = Some r.
+Proof.
+  intros Hn Hr. unfold find_use. destruct (find (fun r0 => Nat.eqb (uid r0) (uid r)) l) as [r'|] eqn:F.
+  - apply find_some in F. destruct F as [Hr' He]. apply Nat.eqb_eq in He.
+    f_equal. apply (nodup_uid_unique l); assumption.
+  - exfalso. pose proof (find_none _ _ F r Hr) as Hx. cbn beta in Hx. rewrite Nat.eqb_refl in Hx. discriminate.
+Qed.
+
+Lemma SInv_unchanged s s' :
+  SInv s -> pending s' = pending s -> wire s' = wire s ->
+  (forall c, alive s c = true -> (exists r, In r (pending s) /\ In c (cov r)) -> alive s' c = true) -> SInv s'.
+Proof.
+  intros S Hp Hw Ha r c Hr Hc Hs. rewrite Hp in Hr. destruct (S r c Hr Hc Hs) as [H1 H2].
+  split; [apply Ha; [exact H1|exists r; split; assumption]|rewrite Hw; exact H2].
+Qed.
+
+Lemma accept_path_same s c r a s' :
+  accept_path s c r a = Some s' -> pending s' = pending s /\ wire s' = wire s /\ alive s' = alive s.
+Proof. unfold accept_path. destruct (r && negb (is_accept a)); [discriminate|]. intros H. injection H as <-. repeat split. Qed.
+Lemma ready_path_same s c e r a s' :
+  ready_path s c e r a = Some s' -> pending s' = pending s /\ wire s' = wire s /\ alive s' = alive s.
+Proof.
+  unfold ready_path. destruct (cur s) as [k|]; [|apply accept_path_same].
+  destruct (evks_differs e k); [|apply accept_path_same]. intros H. injection H as <-. repeat split.
+Qed.
+
+Lemma SInv_step s l s' : GInv s -> TInv s -> SInv s -> step s l = Some s' -> SInv s'.
+Proof.
+  intros G T S H. destruct l; cbn [step] in H.
+  - injection H as <-. intros r c Hr Hc Hs. ssimpl. destruct (S r c Hr Hc Hs) as [H1 H2]. split; [|exact H2].
+    destruct (Nat.eq_dec c (next s)) as [->|Hne]; [apply upd_same|rewrite upd_other by exact Hne; exact H1].
+  - destruct (ph s c); try discriminate. destruct ok.
+    + destruct (ready_path_same _ _ _ _ _ _ H) as [Hp [Hw Ha]]. apply (SInv_unchanged s); try assumption. intros x Hx _. rewrite Ha. exact Hx.
+    + injection H as <-. apply (SInv_unchanged s); try reflexivity; [exact S|]. intros x Hx _. exact Hx.
+  - destruct (ph s c) eqn:Ep; try discriminate. destruct r as [rep|].
+    + destruct (alive s c); [|discriminate].
+      set (s1 := match rep with RSetKeyspace n => set_acked s (upd (acked s) c (Some n)) | _ => s end) in *.
+      assert (S1 : SInv s1) by (subst s1; destruct rep; exact S).
+      destruct (verify_result k rep).
+      * destruct (ready_path_same _ _ _ _ _ _ H) as [Hp [Hw Ha]]. apply (SInv_unchanged s1); try assumption. intros x Hx _. rewrite Ha. exact Hx.
+      * injection H as <-. apply (SInv_unchanged s1); try reflexivity; [exact S1|]. intros x Hx _. exact Hx.
+      * injection H as <-. apply (SInv_unchanged s1); try reflexivity; [exact S1|]. intros x Hx _. exact Hx.
+      * injection H as <-. apply (SInv_unchanged s1); try reflexivity; [exact S1|]. intros x Hx _. exact Hx.
+    + injection H as <-. apply (SInv_unchanged s); try reflexivity; [exact S|]. intros x Hx [r [Hr Hc]]. ssimpl.
+      destruct (Nat.eq_dec x c) as [->|Hne]; [|rewrite upd_other by exact Hne; exact Hx].
+      exfalso. destruct (g_pre s G c) as [_ Hn]; [rewrite Ep; exact I|]. exact (Hn r Hr Hc).
+  - injection H as <-. apply (SInv_unchanged s); try reflexivity; [exact S|]. intros x Hx _. exact Hx.
+  - destruct (make_verified raw cs) as [k|e]; injection H as <-; [|exact S].
+    intros r c Hr Hc Hs. ssimpl. apply in_app_iff in Hr. destruct Hr as [Hr|[<-|[]]]; [apply (S r c Hr Hc Hs)|]. cbn in Hs. discriminate.
+  - destruct (find_use (pending s) u) as [r|] eqn:F; [|discriminate]. apply find_use_some in F. destruct F as [Hr Hu].
+    destruct (mem c (cov r)); [|discriminate]. destruct (stat r c) eqn:St; try discriminate.
+    destruct (alive s c) eqn:Al; injection H as <-; intros r0 x Hr0 Hx Hs; ssimpl.
+    + apply in_upd_use in Hr0. destruct Hr0 as [r1 [Hr1 ->]].
+      destruct (Nat.eqb (uid r1) u) eqn:Eu.
+      * apply Nat.eqb_eq in Eu. assert (r1 = r) by (apply (nodup_uid_unique (pending s)); [apply (t_nodup s T)|assumption|assumption|congruence]). subst r1.
+        ssimpl. destruct (Nat.eq_dec x c) as [->|Hne].
+        -- split; [exact Al|]. rewrite upd_same. apply in_app_iff. right. left. rewrite Hu. reflexivity.
+        -- rewrite upd_other in Hs by exact Hne. destruct (S r x Hr Hx Hs) as [H1 H2]. split; [exact H1|]. rewrite upd_other by exact Hne. exact H2.
+      * destruct (S r1 x Hr1 Hx Hs) as [H1 H2]. split; [exact H1|].
+        destruct (Nat.eq_dec x c) as [->|Hne]; [rewrite upd_same; apply in_app_iff; left; exact H2|rewrite upd_other by exact Hne; exact H2].
+    + apply in_upd_use in Hr0. destruct Hr0 as [r1 [Hr1 ->]].
+      destruct (Nat.eqb (uid r1) u) eqn:Eu.
+      * ssimpl. destruct (Nat.eq_dec x c) as [->|Hne]; [rewrite upd_same in Hs; discriminate|].
+        rewrite upd_other in Hs by exact Hne. apply (S r1 x Hr1 Hx Hs).
+      * apply (S r1 x Hr1 Hx Hs).
+  - destruct (alive s c) eqn:Al; [|discriminate]. destruct (wire s c) as [|[u k] rest] eqn:W; [discriminate|]. injection H as <-.
+    set (s1 := match r with RSetKeyspace n => set_acked s (upd (acked s) c (Some n)) | _ => s end) in *.
+    assert (P1 : pending s1 = pending s) by (subst s1; destruct r; reflexivity).
+    assert (W1 : wire s1 = wire s) by (subst s1; destruct r; reflexivity).
+    assert (A1 : alive s1 = alive s) by (subst s1; destruct r; reflexivity).
+    intros r0 x Hr0 Hx Hs. ssimpl. rewrite P1 in Hr0. apply in_upd_use in Hr0. destruct Hr0 as [r1 [Hr1 ->]]. rewrite A1, W1.
+    destruct (Nat.eqb (uid r1) u) eqn:Eu.
+    + destruct (stat r1 c) eqn:St1.
+      * apply (fun H => proj1 (S r1 x Hr1 Hx H)) in Hs as Hal. destruct (S r1 x Hr1 Hx Hs) as [H1 H2]. split; [exact H1|].
+        destruct (Nat.eq_dec x c) as [->|Hne]; [congruence|rewrite upd_other by exact Hne; exact H2].
+      * ssimpl. destruct (Nat.eq_dec x c) as [->|Hne]; [rewrite upd_same in Hs; discriminate|].
+        rewrite upd_other in Hs by exact Hne. destruct (S r1 x Hr1 Hx Hs) as [H1 H2]. split; [exact H1|]. rewrite upd_other by exact Hne. exact H2.
+      * destruct (S r1 x Hr1 Hx Hs) as [H1 H2]. split; [exact H1|].
+        destruct (Nat.eq_dec x c) as [->|Hne]; [congruence|rewrite upd_other by exact Hne; exact H2].
+    + destruct (S r1 x Hr1 Hx Hs) as [H1 H2]. split; [exact H1|].
+      destruct (Nat.eq_dec x c) as [->|Hne]; [|rewrite upd_other by exact Hne; exact H2].
+      rewrite upd_same. rewrite W in H2. destruct H2 as [Heq|H2]; [|exact H2].
+      injection Heq as Heq _. apply Nat.eqb_neq in Eu. congruence.
+  - destruct (alive s c && (c <? next s)); [|discriminate]. injection H as <-.
+    intros r0 x Hr0 Hx Hs. ssimpl. apply in_map_iff in Hr0. destruct Hr0 as [r1 [<- Hr1]].
+    destruct (Nat.eq_dec x c) as [->|Hne].
+    + exfalso. destruct (stat r1 c) eqn:St1; ssimpl; try (rewrite St1 in Hs; discriminate).
+      rewrite upd_same in Hs. discriminate.
+    + assert (Hs1 : stat r1 x = Sent).
+      { destruct (stat r1 c); try exact Hs. ssimpl. rewrite upd_other in Hs by exact Hne. exact Hs. }
+      assert (Hx1 : In x (cov r1)) by (destruct (stat r1 c); exact Hx).
+      assert (Hk : uid (match stat r1 c with Sent => set_stat r1 c (Done (CBroken 0)) | _ => r1 end) = uid r1 /\
+                   uks (match stat r1 c with Sent => set_stat r1 c (Done (CBroken 0)) | _ => r1 end) = uks r1)
+        by (destruct (stat r1 c); split; reflexivity).
+      destruct Hk as [-> ->]. destruct (S r1 x Hr1 Hx1 Hs1) as [H1 H2]. rewrite !upd_other by exact Hne. split; assumption.
+  - destruct (alive s c); [discriminate|]. destruct (ph s c); try discriminate; injection H as <-;
+      (apply (SInv_unchanged s); try reflexivity; [exact S|]; intros x Hx _; exact Hx).
+  - destruct (find_use (pending s) u) as [r|]; [|discriminate].
+    destruct (forallb (fun c => is_done (stat r c)) (cov r) && panswer_eqb a (answer_of r)); [|discriminate].
+    injection H as <-. intros r0 x Hr0 Hx Hs. ssimpl. apply in_drop_use in Hr0. apply (S r0 x (proj1 Hr0) Hx Hs).
+  - destruct (find_use (pending s) u) as [r|]; [|discriminate]. destruct (cov r); [discriminate|].
+    injection H as <-. intros r0 x Hr0 Hx Hs. ssimpl. apply in_drop_use in Hr0. apply (S r0 x (proj1 Hr0) Hx Hs).
+  - destruct (ph s c); try discriminate. injection H as <-. exact S.
+Qed.
+
+Lemma GTS_reachable k0 s : reachable k0 s -> GInv s /\ TInv s /\ SInv s.
+Proof.
+  intros [ls Hr]. apply (run_inv (fun s => GInv s /\ TInv s /\ SInv s) (fun _ => true)) with (ls := ls) (s := init k0).
+  - intros s0 l s1 [G [T S]] _ H. split; [eapply GInv_step; eassumption|]. split; [eapply TInv_step; eassumption|eapply SInv_step; eassumption].
+  - apply forallb_forall. reflexivity.
+  - split; [apply GInv_init|]. split; [apply TInv_init|]. intros r c [].
+  - exact Hr.
+Qed.
+
+(* a USE answered with the requested name makes the server-side keyspace of that connection match it *)
+Lemma ack_ok_matches s c rep s' u k rest :
+  step s (UseAck c rep) = Some s' -> wire s c = (u, k) :: rest -> verify_result k rep = VOk ->
+  matchesb s' c k = true /\ wire s' c = rest.
+Proof.
+  intros H W V. cbn [step] in H. destruct (alive s c); [|discriminate]. rewrite W in H. injection H as <-.
+  destruct rep as [n| |]; try discriminate. unfold matchesb. ssimpl. rewrite !upd_same. split; [|reflexivity].
+  cbn [verify_result] in V. destruct (eq_ci n (fst k)); [reflexivity|discriminate].
+Qed.
+
+(* progress: a pending pool-level use never waits on nothing - one of its own steps is always enabled:
+   a USE still to submit, an answer (or the connection's death) still to come on a live connection with
+   the frame on the wire, or the answer to the caller *)
+Lemma pool_progress k0 s r :
+  reachable k0 s -> In r (pending s) ->
+  (exists c s', In c (cov r) /\ step s (UseSend (uid r) c) = Some s') \/
+  (exists c s', In c (cov r) /\ stat r c = Sent /\ step s (UseAck c RError) = Some s') \/
+  (exists s', step s (UseDone (uid r) (answer_of r)) = Some s').
+Proof.
+  intros R Hr. destruct (GTS_reachable k0 s R) as [G [T S]].
+  pose proof (find_use_unique (pending s) r (t_nodup s T) Hr) as Hf.
+  destruct (find (fun c => match stat r c with NotSent => true | _ => false end) (cov r)) as [c|] eqn:F1.
+  - left. apply find_some in F1. destruct F1 as [Hc Hs]. destruct (stat r c) eqn:St; try discriminate.
+    exists c. cbn [step]. rewrite Hf, (proj2 (mem_In c (cov r)) Hc), St. destruct (alive s c); eexists; (split; [exact Hc|reflexivity]).
+  - destruct (find (fun c => match stat r c with Sent => true | _ => false end) (cov r)) as [c|] eqn:F2.
+    + right. left. apply find_some in F2. destruct F2 as [Hc Hs]. destruct (stat r c) eqn:St; try discriminate.
+      destruct (S r c Hr Hc St) as [Hal Hw]. exists c. cbn [step]. rewrite Hal.
+      destruct (wire s c) as [|[u k] rest]; [contradiction|]. eexists. repeat split; [exact Hc|exact St].
+    + right. right. cbn [step]. rewrite Hf.
+      assert (Hall : forallb (fun c => is_done (stat r c)) (cov r) = true).
+      { apply forallb_forall. intros c Hc. pose proof (find_none _ _ F1 c Hc) as N1. pose proof (find_none _ _ F2 c Hc) as N2.
+        cbn beta in N1, N2. destruct (stat r c); try discriminate. reflexivity. }
+      rewrite Hall. assert (panswer_eqb (answer_of r) (answer_of r) = true) by (destruct (answer_of r); reflexivity).
+      rewrite H. eexists. reflexivity.
+Qed.
